@@ -9,7 +9,7 @@ t=$(ls tests/same_*.rs 2>/dev/null | head -1); [ -z "$t" ] && { echo "$id: no sa
 tn=$(basename "$t" .rs)
 log=/tmp/seed/$id.confirm.log; : > $log
 [ -s patch.diff ] || { echo "$id: empty patch"; exit 2; }
-git checkout -- src 2>>$log
+git reset -q 2>>$log; git checkout -- src 2>>$log; git clean -fdq src 2>>$log     # (new files of the patch - intent-to-add entries - go too)
 git apply --check patch.diff 2>>$log || { echo "$id: patch does not apply to a clean tree"; exit 2; }
 cargo test --offline --test "$tn" >>$log 2>&1; orig=$?
 git apply patch.diff
